@@ -97,7 +97,7 @@ func main() {
 	rng := lib.NewRng(f.Seed)
 	out := lib.NewOut("C10", f)
 	out.Imports = "From Verif Require Import Model.OfflineId.\n"
-	out.Rule = "uuid: the real uuid.OfflinePlayerUUID on valid names, printable ASCII, multi-byte UTF-8, invalid UTF-8, empty, lengths around the MD5 block boundaries (41,42,49,50 bytes + 14 prefix) and 1 KiB names; login: ALL strings of length <= 2 over the 12 symbols {a Z 0 _ - space \\n NUL e-acute . DEL 0xff} (157), boundary lengths 1,2,15,16,17,64,65 of valid characters and of one invalid character at the start/middle/end, 16 multi-byte runes, random names; protocols 1.8/1.12.2/1.20.1/1.20.2/26.2, forwarding none/legacy, compression on/off; non-trivial = uuid case with a non-empty name, or login case whose name has length >= 2; distinct = distinct Coq term"
+	out.Rule = "uuid: the real uuid.OfflinePlayerUUID on valid names, printable ASCII, multi-byte UTF-8, invalid UTF-8, empty, lengths around the MD5 block boundaries (41,42,49,50 bytes + 14 prefix) and 1 KiB names; login: ALL strings of length <= 2 over the 12 symbols {a Z 0 _ - space \\n NUL e-acute . DEL 0xff} (157), boundary lengths 1,2,15,16,17,64,65 of valid characters and of one invalid character at the start/middle/end, 16 multi-byte runes, every one of 43 confusable code points (Kelvin sign, long s, dotted/dotless i, fullwidth, Latin-1, combining marks, Greek/Cyrillic look-alikes, ...) at every position of a valid 3-letter name plus whole confusable names, random names; protocols 1.8/1.12.2/1.20.1/1.20.2/26.2, forwarding none/legacy, compression on/off; non-trivial = uuid case with a non-empty name, or login case whose name has length >= 2; distinct = distinct Coq term"
 
 	// ---- (1) direct uuid calls --------------------------------------------------------------------
 	type ucase struct {
@@ -187,6 +187,33 @@ func main() {
 	add([]byte("Notch\n"), "trailing-newline")
 	add([]byte("\nNotch"), "leading-newline")
 	add([]byte("Not ch"), "space")
+	// code points that case-fold, normalise or merely look like ASCII letters/digits/underscore: every
+	// one at every position of a valid 3-letter name, plus a few whole names (raw UTF-8 bytes travel)
+	confusable := []rune{0x212A, 0x017F, 0x0130, 0x0131, 0x212B, 0x2126, 0x01C5,
+		0xFF21, 0xFF3A, 0xFF41, 0xFF5A, 0xFF10, 0xFF19, 0xFF3F,
+		0x00C0, 0x00E9, 0x00DF, 0x00FF, 0x00B5, 0x00AA, 0x00BA, 0x00B2,
+		0x0301, 0x0308, 0x0327, 0x200D, 0x200B, 0x00AD, 0xFEFF,
+		0x0391, 0x039A, 0x03BF, 0x0430, 0x0435, 0x043E, 0x041A, 0x0441,
+		0x2460, 0x2160, 0xFE4D, 0x203F, 0x1D400, 0x1D7CE}
+	bases := []string{"ksi", "KSI", "a0_"}
+	for ci, cp := range confusable {
+		base := []rune(bases[ci%len(bases)])
+		for pos := 0; pos < 3; pos++ {
+			r := append([]rune{}, base...)
+			r[pos] = cp
+			add([]byte(string(r)), "confusable-replace")
+		}
+	}
+	for _, cp := range []rune{0x0301, 0x0308, 0x0327, 0x200D, 0x20DD} { // combining mark after an ASCII letter
+		add([]byte("St"+string(cp)+"eve"), "confusable-combining")
+	}
+	add([]byte("\u212Aevin"), "confusable-name")
+	add([]byte("\u017Fteve"), "confusable-name")
+	add([]byte("Mi\u017F\u017Fy"), "confusable-name")
+	add([]byte("D\u0130NO"), "confusable-name")
+	add([]byte("d\u0131no"), "confusable-name")
+	add([]byte("\uFF21\uFF22\uFF23"), "confusable-name")
+	add([]byte("Player\uFF11"), "confusable-name")
 	nr := f.Count(40)
 	for i := 0; i < nr; i++ {
 		if rng.Chance(2, 3) {
